@@ -96,6 +96,45 @@ def check_C16(run):
                     TRUSTED + ["the fault-free reference output of the same history (itself judged as a C09 trace in the same run)"])
 
 
+def check_C06(run):
+    run.model("MC_Wire", "MC_Wire_quick")
+    cases, g = V.generate(run.scratch, "MC_Mutate", "MC_Mutate_thorough" if run.thorough() else "MC_Mutate_quick")
+    run.models.append(g)
+    out, meta = run.drive("C06", cases=cases, timeout=7000)
+    total, rejected, states, _ = V.judge(run.scratch, "Trace_Robust", out)
+    cov = std_cov(run, meta, total, states,
+                  "one event per (entry point, input): TLC-enumerated single-field mutations of valid encodings (every length/count/selector/long token x 17 replacements), "
+                  "every framing varint of real container files x 15 replacements, truncations and flips, random bytes into 5 codec shapes, damaged schema JSON, damaged timestamp text; "
+                  "each executed in a child process with a 20 s watchdog and an 8 GiB address-space limit; keys are entry|family|site|replacement",
+                  extra=dict(tlc_mutants=meta.get("tlc_mutants")))
+    return V.finish("C06", run.tier, run.seed, "model_checking", cov, rejected, out, run.t0,
+                    TRUSTED + ["runtime.MemStats.TotalAlloc as allocation sensor", "'for all byte strings' is explored (enumerated mutations + seeded random), not proved"])
+
+
+def check_C08(run):
+    run.model("AvroSystem", "AvroSystem_thorough" if run.thorough() else "AvroSystem_quick")
+    run.model("MC_Wire", "MC_Wire_quick")
+    out, meta = run.drive("C08")
+    require_realised(meta, ["count-2-bytes", "len-2-bytes", "len-3-bytes", "blocks=0", "blocks=1", "blocks=3"])
+    total, rejected, states, _ = V.judge(run.scratch, "Trace_Reader", out)
+    cov = std_cov(run, meta, total, states,
+                  "one trace per valid file (3 codecs x 7 block layouts incl. empty, one record per block, 70 records in one block, a 9000-byte record); "
+                  "one event per cut position: every cut 0..len for files up to 700 bytes, otherwise every cut within 2 bytes of a field boundary plus a stride; "
+                  "keys are codec|layout")
+    return V.finish("C08", run.tier, run.seed, "model_checking", cov, rejected, out, run.t0, TRUSTED + ["the files under test are re-validated by Container!ParseFile before use"])
+
+
+def check_C07(run):
+    run.model("ReaderDamage")
+    out, meta = run.drive("C07")
+    total, rejected, states, _ = V.judge(run.scratch, "Trace_Reader", out)
+    cov = std_cov(run, meta, total, states,
+                  "per valid file: callback failing at each record index; single-bit flips at every byte of every sync marker and snappy checksum (2 bits per byte quick, all 8 thorough) "
+                  "and of the compressed payloads (sampled quick, every byte thorough), each classified by an independent decompressor; five header variants; keys are codec|layout")
+    return V.finish("C07", run.tier, run.seed, "model_checking", cov, rejected, out, run.t0,
+                    TRUSTED + ["compress/flate, golang/snappy, hash/crc32 as the environment's verdict on a damaged payload"])
+
+
 CHECKS = {k[6:]: v for k, v in list(globals().items()) if k.startswith("check_C")}
 
 
